@@ -1,7 +1,8 @@
 //! C16: level validation guarantees that the level-n slice of the store suffices.
 //! One case = one schema world (2/3 chain worlds from gen_schema_chain.rs, 1/3 generic worlds from gen_schema.rs) with a
 //! dense conformant store, ~6 schema-directed valid policies (gen_typed.rs) and ~14 *chain policies* (below) of
-//! dereference depth 0..5, and 10 conformant requests.
+//! dereference depth 0..5, 5 *const-operand policies* (`body_const`: a non-literal operand of `||` / `&&` / `if` that is typed
+//! False / True and dereferences deeper than the rest of the policy), and 10 conformant requests.
 //!   K  (correspondence)
 //!      * per strict-valid policy (single-policy sets): the verdicts of `Validator::validate_with_level(.., Strict, n)`
 //!        for n = 0..4 — accepted, or the classes of level errors (maximum level exceeded with the largest required level,
